@@ -17,6 +17,7 @@ import (
 	"math"
 	"os"
 	"path/filepath"
+	"regexp"
 	"sort"
 	"strings"
 	"time"
@@ -583,6 +584,12 @@ func runWriter(c Case) lib.Result {
 	}
 	tb := math.Float64frombits(c.TbBits)
 	tags := map[string]bool{c.Kind: true}
+	if c.SfDiv == 0 && c.Kind == "w22" {
+		tags["subframe-divisions-0"] = true
+	}
+	if strings.ContainsAny(ch.Name+ch.Desc+c.Source+ch.PName, "%\"\\") {
+		tags["header-text-with-verbs-quotes-backslashes"] = true
+	}
 	var create, header, flush, closeW func() error
 	var record func(r Rec) error
 	var readBack func() fileObs
@@ -755,6 +762,9 @@ func runBench(c Case) lib.Result {
 	dir := caseDir(c.ID)
 	defer os.RemoveAll(dir)
 	tags := map[string]bool{"bench": true}
+	if c.SfDiv == 0 {
+		tags["subframe-divisions-0"] = true
+	}
 	nchan := len(c.Chans)
 	rate := float64(c.RateNum) / float64(c.RateDen)
 	b, err := dastard.VerifNewBench(nchan, c.NPre, c.NSamp, 10000.0, nil)
@@ -783,6 +793,9 @@ func runBench(c Case) lib.Result {
 		}
 		if ch.Row != 0 || ch.Col != 0 {
 			tags["row-or-column-nonzero"] = true
+		}
+		if strings.ContainsAny(ch.Name+ch.Desc+c.Source, "%\"\\") || (c.UseMap && strings.ContainsAny(ch.PName, "%\"\\")) {
+			tags["header-text-with-verbs-quotes-backslashes"] = true
 		}
 		if ch.Rows != c.Chans[0].Rows || ch.Cols != c.Chans[0].Cols {
 			tags["array-size-differs-between-channels"] = true
@@ -840,7 +853,15 @@ func runBench(c Case) lib.Result {
 			f22, f3, fo := fileObs{State: "absent"}, fileObs{State: "absent"}, fileObs{State: "absent"}
 			if active {
 				find := func(ext string) string {
-					m, _ := filepath.Glob(filepath.Join(cycleDir, "*_"+ch.Name+"."+ext))
+					// <date>_run<NNNN>_<channel name>.<ext>; the name is matched literally (it may hold any character)
+					re := regexp.MustCompile(`^[0-9]{8}_run[0-9]{4}_` + regexp.QuoteMeta(ch.Name) + `\.` + ext + `$`)
+					ents, _ := os.ReadDir(cycleDir)
+					var m []string
+					for _, e := range ents {
+						if re.MatchString(e.Name()) {
+							m = append(m, filepath.Join(cycleDir, e.Name()))
+						}
+					}
 					if len(m) == 1 {
 						return m[0]
 					}
